@@ -29,12 +29,23 @@ Comparison rule (compare: "tol").  s = ||A||_2.
   code = spec:  the driver's exact verdict (selection: the selected positions are an extreme-magnitude selection of
       the magnitude ranks; structural: eigenpairs of den, orthonormality, rank, extreme magnitudes) must agree with the
       oracle's verdict on the real output.
+  contract (assumed of LAPACK, observed):  every spectrum xnp.eig / xnp.eigh computed satisfies DenseContract -- A P = P diag(lam)
+      to 1e-10 ||A||, unit columns, smin(P) >= 1e-8, eigh: ||P^H P - I|| <= 1e-10, ascending; every spectrum lanczos_eigs /
+      arnoldi_eigs computed with max_iters >= n consists of eigenpairs to 1e-6 ||A|| (conclusion of C10_lanczos_path /
+      C10_arnoldi_path).
+  power iteration, EVERY case (also those stopped by the cap), on the iterates the real run formed (arguments of A @ v,
+      logged by RecDense), STEP_TOL = 1e-12:  number of products = iterations - 1 <= max_iter;  iterate j+1 = A v_j / ||A v_j||,
+      unit norm;  returned value = conj(vprev) @ A vprev;  |value_j| <= ||A|| ||v_j||^2;  Hermitian A: Im value_j = 0;
+      Hermitian PSD A: value_{j+1} >= value_j - 1e-12 ||A|| for j >= 1;  stopping rule on the recomputed errors with the
+      margin 1e-6 tol + 1e-12;  info['errors'] = recomputed errors (rtol 1e-9);  model values equal the real ones step by
+      step on the common prefix (1e-9).
 Spectra are well separated BY CONSTRUCTION: A = V diag(lam) V^-1, cond(V) <= ~10, distinct magnitudes with relative
 gaps >= 12 %, the dominant one >= 1.7 x the next (power iteration converges), complex-conjugate pairs for real A.
 """
 import json
 import math
 import random
+import re
 import struct
 import sys
 import time
@@ -64,13 +75,40 @@ MODULE = "ColaVerif.Properties.C10"
 DRIVER = "DriverC10.lean"
 
 # Genuine defects found by this check and not (yet) listed in /verif/known_findings.json.
-# The four defects this check found (selection by position, Triangular rule on lower triangular data,
-# complex Triangular, unconjugated Rayleigh quotient) are FIXED in /repo (commits bb973bc, d3bb5ef, 3dd8195
-# and the select_by_magnitude commit); nothing is provisional any more.
-PROVISIONAL_KNOWN = {}
+# Four earlier ones (selection by position, Triangular rule on lower triangular data, complex Triangular, unconjugated
+# Rayleigh quotient) are FIXED in /repo (commits bb973bc, d3bb5ef, 3dd8195 and the select_by_magnitude commit).
+PROVISIONAL_KNOWN = {
+    "lobpcg-drops-smallest": {
+        "what": "eig(A, k, which, LOBPCG()): cola/linalg/eig/lobpcg.py starts scipy's lobpcg(largest=True) with a block of "
+                "min(n - 1, max_iters) columns, so only the n - 1 algebraically LARGEST eigenpairs are ever computed and "
+                "select_by_magnitude (cola/linalg/eig/eigs.py, LOBPCG rule) selects among those: the algebraically smallest "
+                "eigenvalue can never be returned -- 'SM' on a positive definite operator misses the smallest eigenvalue, 'LM' "
+                "misses a dominant negative one, k = n returns n - 1 pairs (Lean: hypothesis droppedNotWanted / enoughComputed of "
+                "C10_lobpcg_partial, witness C10_lobpcg_clause_needed)",
+        "witness": "cola.linalg.eig(cola.SelfAdjoint(cola.ops.Dense(np.diag([1., 2., 3., 4.]))), 1, 'SM', LOBPCG()) returns [2.] "
+                   "(smallest-magnitude eigenvalue: 1); with np.diag([-5., 1., 2., 3.]), k=1, 'LM' it returns [3.] (largest "
+                   "magnitude: -5); with k=4 three pairs come back",
+        "site": "cola/linalg/eig/lobpcg.py: k = min(A.shape[0] - 1, max_iters); lobpcg_sp(A2, X, largest=largest) / "
+                "cola/linalg/eig/eigs.py: eig(A, k, which, alg: LOBPCG)",
+    },
+}
+LOBPCG_TOL = 1e-4     # lobpcg works in single precision (float32 / complex64)
 
 RES_TOL = 1e-6
 MAX_VIOLATION_LINES = 5
+STEP_TOL = 1e-12     # one-step claims of power iteration: a few rounding errors of one product of size n <= 10
+
+
+class RecDense(Dense):
+    """Dense operator that logs the argument of every product A @ X: the harness observes the iterates the real
+    power_iteration forms (and nothing else changes: the operator is an input of the code under test)"""
+    def __init__(self, A):
+        super().__init__(A)
+        self.rec = []
+
+    def _matmat(self, X):
+        self.rec.append(np.array(X, copy=True))
+        return super()._matmat(X)
 
 
 # ----------------------------------------------------------------------------------------------
@@ -166,6 +204,20 @@ class Spy:
         return None
 
 
+KRYLOV_SPEC = re.compile(r"^(lanczos|arnoldi)(?:([+*])(\d+))?(?:@(.+))?$")
+
+
+def krylov_params(spec, n):
+    """'arnoldi' / 'lanczos+3' / 'arnoldi*3@1e-18' / 'lanczos+1@0' -> (name, max_iters, tol or None):
+    cap n (bare), n + d ('+d'), d * n ('*d'); '@tol' sets the tolerance (default: the class default 1e-7)"""
+    m = KRYLOV_SPEC.match(spec)
+    if not m:
+        return None
+    name, op, d, tol = m.groups()
+    cap = n if op is None else (n + int(d) if op == "+" else n * int(d))
+    return name, cap, (None if tol is None else float(tol))
+
+
 def make_alg(spec, n):
     if spec == "omitted":
         return None
@@ -177,10 +229,11 @@ def make_alg(spec, n):
         return Eig()
     if spec == "eigh":
         return Eigh()
-    if spec.startswith("lanczos"):
-        return Lanczos(max_iters=n + int(spec.split("+")[1]) if "+" in spec else n)
-    if spec.startswith("arnoldi"):
-        return Arnoldi(max_iters=n + int(spec.split("+")[1]) if "+" in spec else n)
+    kp = krylov_params(spec, n)
+    if kp is not None:
+        name, cap, tol = kp
+        cls = Lanczos if name == "lanczos" else Arnoldi
+        return cls(max_iters=cap) if tol is None else cls(max_iters=cap, tol=tol)
     if spec == "lobpcg":
         return LOBPCG()
     if spec == "power":
@@ -215,7 +268,7 @@ def build_op(c):
     if c.get("op") is not None:
         return Builder().build(c["op"])
     A = dec_mat(c["A"], c["cplx"])
-    op = Dense(A)
+    op = RecDense(A)
     if c["sa"]:
         op = cola.SelfAdjoint(op)
     return op
@@ -264,7 +317,7 @@ def run_real(c, raising=False):
                 out["exc_msg"] = str(ex)[:300]
         out["path"] = out.get("routed") or ("AssertionError" if out.get("exc") == "AssertionError" else spy.path())
         p = out["path"]
-        if not raising and p in ("eig", "eigh", "lanczos", "arnoldi") and "exc" not in out:
+        if not raising and p in ("eig", "eigh", "lanczos", "arnoldi", "lobpcg") and "exc" not in out:
             r = spy.result(p)
             if r is not None:
                 out["computed_vals"] = np.asarray(r[0])
@@ -273,6 +326,9 @@ def run_real(c, raising=False):
             r = spy.result("power")
             if r is not None:
                 out["power_iterations"] = int(r[2]["iterations"])
+                out["power_errors"] = np.asarray(r[2]["errors"])
+                out["power_rec"] = [np.asarray(x).reshape(-1) for x in getattr(op, "rec", [])]
+                out["power_ret"] = (np.asarray(r[1]), np.asarray(r[0]))
     out["dense"] = np.asarray(op.to_dense())
     out["dtype_complex"] = np.iscomplexobj(out["dense"])
     return out
@@ -459,6 +515,124 @@ def oracle_eig(A, k, which, vals, V, hermitian, tol_res=RES_TOL, tol_val=RES_TOL
     return fails
 
 
+def power_claims(A, real, tol, max_iter, hermitian, psd):
+    """The one-step claims of power iteration -- theorems C10_power_cap (at most max_iter products), C10_power_returns
+    (returned value = conj(vprev) @ A vprev, returned vector = A vprev / ||A vprev||, stop at the cap or by the test),
+    C10_power_rayleigh (unit iterates, |value| <= ||A||, real for Hermitian A) and C10_power_monotone (Hermitian PSD A:
+    the values never decrease from the second one on) -- evaluated with numpy on the iterates the REAL run formed
+    (the arguments of its products A @ v, logged by RecDense), on EVERY case, whatever stopped the loop.
+    -> list of (failure, detail)"""
+    fails = []
+    rec = real["power_rec"]
+    value, v = real["power_ret"]
+    value = complex(value)
+    v = np.asarray(v).reshape(-1)
+    s = len(rec)
+    steps = real["power_iterations"] - 1
+    sA = max(np.linalg.norm(A, 2), 1e-300)
+    if steps != s:
+        fails.append(("power-count", f"info['iterations'] - 1 = {steps}, but {s} products A @ v were formed"))
+    if s > max_iter:
+        fails.append(("power-cap", f"{s} products A @ v with max_iter={max_iter}"))
+    if s == 0:
+        return fails
+    with np.errstate(all="ignore"):
+        AV = [A @ x for x in rec]
+        nv2 = [float(np.vdot(x, x).real) for x in rec]
+        rho = [complex(np.vdot(x, ax)) for x, ax in zip(rec, AV)]     # conj(v_j) @ (A v_j)
+        seq = rec + [v]
+        for j in range(s):
+            npn = np.linalg.norm(AV[j])
+            if not (npn > 0 and np.isfinite(npn)):
+                continue
+            d = np.abs(seq[j + 1] - AV[j] / npn).max()
+            if not d <= STEP_TOL:
+                fails.append(("power-step", f"iterate {j + 1} differs from A v_{j} / ||A v_{j}|| by {d:.3e}"))
+                break
+            dn = abs(np.linalg.norm(seq[j + 1]) - 1.0)
+            if not dn <= STEP_TOL:
+                fails.append(("power-unit", f"iterate {j + 1} has norm 1 + {dn:.3e}"))
+                break
+        scale = max(sA * nv2[s - 1], 1e-300)
+        if not abs(value - rho[s - 1]) <= STEP_TOL * scale:
+            fails.append(("power-value", f"returned value {value}, conj(vprev) @ (A vprev) = {rho[s - 1]} at the iterate "
+                                         f"before the returned vector ({s} products)"))
+        for j in range(s):
+            if not abs(rho[j]) <= sA * nv2[j] * (1 + STEP_TOL):
+                fails.append(("power-bound", f"|value {j}| = {abs(rho[j])} exceeds ||A|| ||v||^2 = {sA * nv2[j]}"))
+                break
+            if hermitian and not abs(rho[j].imag) <= STEP_TOL * sA * nv2[j]:
+                fails.append(("power-real", f"value {j} = {rho[j]} of a Hermitian operator is not real"))
+                break
+        if psd:
+            for j in range(1, s - 1):
+                if not rho[j + 1].real >= rho[j].real - STEP_TOL * sA:
+                    fails.append(("power-monotone", f"Hermitian PSD operator: value {j + 1} = {rho[j + 1].real} < value {j} = "
+                                                    f"{rho[j].real}"))
+                    break
+        # the stopping rule, on the errors recomputed from the iterates (state j: eig_j, eigprev_j)
+        eigs = [10.0 + 0j] + rho
+        prevs = [1.0 + 0j] + eigs[:-1]
+        errs = [abs(pj - ej) / abs(ej) if abs(ej) > 0 else float("inf") for ej, pj in zip(eigs, prevs)]
+        margin = 1e-6 * tol + 1e-12
+        for j in range(s):
+            if errs[j] < tol - margin:
+                fails.append(("power-stop", f"the loop went on after evaluation {j} of the test although err = {errs[j]:.6e} <= "
+                                            f"tol = {tol}"))
+                break
+        if s < max_iter and errs[s] > tol + margin:
+            fails.append(("power-stop", f"the loop stopped after {s} < max_iter = {max_iter} products although err = "
+                                        f"{errs[s]:.6e} > tol = {tol}"))
+        rerr = np.asarray(real.get("power_errors", []), dtype=float)
+        want = np.array(errs[2:] + errs[-1:]) if s >= 1 else np.array([])
+        if rerr.shape == want.shape and rerr.size:
+            bad = ~(np.abs(rerr - want) <= 1e-9 * np.abs(want) + 1e-12) & np.isfinite(want)
+            if bad.any():
+                j = int(np.argmax(bad))
+                fails.append(("power-errors", f"info['errors'][{j}] = {rerr[j]}, recomputed from the iterates {want[j]}"))
+        elif rerr.shape != want.shape:
+            fails.append(("power-errors", f"info['errors'] has {rerr.shape} entries, {want.shape} evaluations expected"))
+    return fails
+
+
+def contract_check(A, path, cvals, cvecs, hermitian):
+    """The contract the theorems ASSUME of the routine behind a rule, observed on the spectrum the routine actually
+    computed (before the selection): `DenseContract` of C10_dense_eig / C10_dense_eigh -- A P = P diag(lam), n pairs,
+    unit (hence non-zero) columns, linearly independent; xnp.eigh: P unitary -- and, for the Krylov routines run with
+    at least n iterations, the conclusion of C10_lanczos_path / C10_arnoldi_path (every computed pair is an eigenpair).
+    LAPACK paths to 1e-10 ||A||, Krylov paths to the oracle's 1e-6 ||A||.  -> list of (failure, detail)"""
+    out = []
+    n = A.shape[0]
+    s = max(np.linalg.norm(A, 2), 1e-300)
+    lam = np.asarray(cvals)
+    P = np.asarray(cvecs)
+    lapack = path in ("eig", "eigh")
+    tol = 1e-10 if lapack else RES_TOL
+    if lam.ndim != 1 or P.ndim != 2 or P.shape[0] != n or P.shape[1] != lam.shape[0] or (lapack and lam.shape[0] != n):
+        return [("contract-shape", f"{path}: values {lam.shape}, vectors {P.shape} for n = {n}")]
+    if not (np.all(np.isfinite(lam)) and np.all(np.isfinite(P))):
+        return [("contract-finite", f"{path}: nan / inf in the computed spectrum")]
+    norms = np.linalg.norm(P, axis=0)
+    if lapack and np.abs(norms - 1).max() > 1e-10:
+        out.append(("contract-unit", f"{path}: column norms {norms.tolist()}"))
+    if np.any(norms <= 1e-12):
+        return out + [("contract-zero-column", f"{path}: column norms {norms.tolist()}")]
+    res = np.linalg.norm(A @ P - P * lam[None, :], axis=0) / (s * norms)
+    if res.max() > tol:
+        out.append(("contract-eigenpairs", f"{path}: max ||A p - lam p|| / (||A|| ||p||) = {res.max():.3e}"))
+    if lapack:
+        smin = np.linalg.svd(P / norms[None, :], compute_uv=False)[-1]
+        if smin < 1e-8:
+            out.append(("contract-independent", f"{path}: smallest singular value of P {smin:.3e}"))
+    if path == "eigh" and hermitian:
+        dev = np.abs(P.conj().T @ P - np.eye(n)).max()
+        if dev > 1e-10:
+            out.append(("contract-unitary", f"eigh: max |P^H P - I| = {dev:.3e}"))
+        if np.iscomplexobj(lam) or np.any(np.diff(lam) < 0):
+            out.append(("contract-ascending", f"eigh: values {lam.tolist()}"))
+    return out
+
+
 def mag_ranks(vals, s):
     """magnitude ranks of a computed spectrum (equal within 1e-6 s: the same rank), in computed order"""
     mags = np.abs(np.asarray(vals))
@@ -520,11 +694,16 @@ def gen_cases(ctx, rng):
         "real-general": ["omitted", "auto-tol", "eig", "arnoldi", "arnoldi+3", "power"],
         "complex-general": ["omitted", "auto-tol", "eig", "arnoldi", "arnoldi+3", "power"],
     }
+    # Krylov rules with an iteration cap ABOVE n and a tolerance below round-off ("run all the iterations"): the
+    # cap min(max_iters, n) of arnoldi_fact / lanczos is what keeps noise columns out of the Ritz problem
+    arnoldi_above = [f"arnoldi{cap}@{tol}" for cap in ("+1", "+4", "*3") for tol in ("0", "1e-18")]
+    lanczos_above = ["lanczos+1@0", "lanczos+4@1e-18", "lanczos*3@0"]
     for _ in range(reps):
-        for family, algs in fam_algs.items():
+        for family, algs0 in fam_algs.items():
             for n in sizes:
                 A, cplx, sa = gen_matrix(rng, family, n)
                 base = {"stream": "value", "family": family, "n": n, "cplx": cplx, "sa": sa, "A": enc_mat(A, cplx)}
+                algs = algs0 + arnoldi_above + (lanczos_above if sa else [])
                 for alg in algs:
                     for which in ("LM", "SM"):
                         for k in range(1, n + 1):
@@ -532,7 +711,7 @@ def gen_cases(ctx, rng):
                                 continue
                             add(dict(base, k=k, which=which, alg=alg))
                 # eigmax / eigmin
-                for alg in [a for a in algs if a not in ("power",)] + ["power"]:
+                for alg in [a for a in algs0 if a not in ("power",)] + ["power", "arnoldi+4@1e-18"]:
                     add(dict(base, k=1, which="LM", alg=alg, fn="eigmax"))
                     if not alg.startswith("power"):
                         add(dict(base, k=1, which="SM", alg=alg, fn="eigmin"))
@@ -561,6 +740,15 @@ def gen_cases(ctx, rng):
                 for (k, which) in [(1, "LM"), (1, "SM"), (2, "LM"), (2, "SM")]:
                     add({"stream": "route", "family": f"{kind}:{rows}:{sa_decl}", "n": rows, "k": k, "which": which,
                          "alg": alg, "rkind": kind, "rsa": sa_decl})
+    # --- LOBPCG rule, numerically (single precision routine; the n - 1 algebraically largest pairs) -------------------
+    for _ in range(reps):
+        for family in ("herm-def", "herm-indef", "herm-def", "herm-indef"):
+            for n in (3, 4, 5, 6, 7, 8):
+                A, cplx, sa = gen_matrix(rng, family, n)
+                base = {"stream": "lobpcg", "family": family, "n": n, "cplx": cplx, "sa": True, "A": enc_mat(A, cplx)}
+                for which in ("LM", "SM"):
+                    for k in range(1, n + 1):
+                        add(dict(base, k=k, which=which, alg="lobpcg"))
     # --- power iteration stream -----------------------------------------------------------------------------
     for _ in range(reps):
         for family in ("herm-def", "herm-indef", "real-general", "herm-def", "complex-general"):
@@ -625,8 +813,10 @@ def run(ctx):
 
     outcomes = {"ok": 0, "modelled-defect": 0, "spec-fail": 0, "real-ne-model": 0, "model-error": 0, "inconsistent": 0}
     dist = {"streams": {}, "families": {}, "paths": {}, "algs": {}, "n": {}, "which": {}, "k_eq_n": 0, "clauses": {},
-            "power": {"determined": 0, "undetermined": 0, "stopped_by_tol": 0, "stopped_by_cap": 0, "complex": 0},
-            "eigmax_eigmin": 0, "positions_checked": 0, "structural_exact": 0, "verdict_by_rule": {}}
+            "power": {"determined": 0, "undetermined": 0, "stopped_by_tol": 0, "stopped_by_cap": 0, "complex": 0,
+                      "values_compared": 0, "one_step_claims_checked": 0, "one_step_claims_at_cap": 0, "monotone_checked": 0},
+            "eigmax_eigmin": 0, "positions_checked": 0, "contract_checked": {},
+            "lobpcg": {"checked": 0, "dropped_pair_wanted": 0}, "structural_exact": 0, "verdict_by_rule": {}}
     sigs = set()
     nontrivial = 0
     samples = []
@@ -643,8 +833,9 @@ def run(ctx):
              "how_to_read": "case.A: IEEE-754 bit patterns of the doubles of the dense matrix ([re, im] for complex), wrapped "
                             "in cola.SelfAdjoint when case.sa; case.op: case-language operator (harness/build.py); call "
                             "cola.linalg.eig(A, k, which[, alg]) (alg: omitted / Auto() / auto-tol = Auto(tol=1e-10, max_iter=500) / "
-                            "Eig() / Eigh() / Lanczos(max_iters=n[+3]) / Arnoldi(max_iters=n[+3]) / power = PowerIteration(tol=1e-10, "
-                            "max_iter=500)), or eigmax / eigmin when case.fn says so; stream 'power': "
+                            "Eig() / Eigh() / Lanczos(max_iters=n[+3]) / Arnoldi(max_iters=n[+3]) / 'arnoldi+d@t', 'arnoldi*d@t', "
+                            "'lanczos+d@t', 'lanczos*d@t' = Arnoldi / Lanczos(max_iters=n+d resp. d*n, tol=t) / power = "
+                            "PowerIteration(tol=1e-10, max_iter=500) / lobpcg = LOBPCG()), or eigmax / eigmin when case.fn says so; stream 'power': "
                             "PowerIteration(tol=case.tol, max_iter=case.max_iter)"}
         if extra:
             p.update(extra)
@@ -720,7 +911,7 @@ def run(ctx):
         elif c["stream"] == "power":
             cc = dict(c)
             A = dec_mat(c["A"], c["cplx"])
-            op = Dense(A)
+            op = RecDense(A)
             if c["sa"]:
                 op = cola.SelfAdjoint(op)
             out = {"dense": A}
@@ -733,6 +924,9 @@ def run(ctx):
                         out["path"] = spy.path()
                         r = spy.result("power")
                         out["power_iterations"] = int(r[2]["iterations"])
+                        out["power_errors"] = np.asarray(r[2]["errors"])
+                        out["power_rec"] = [np.asarray(x).reshape(-1) for x in op.rec]
+                        out["power_ret"] = (np.asarray(r[1]), np.asarray(r[0]))
                     except Exception as ex:  # noqa: BLE001
                         out["exc"] = type(ex).__name__ + ": " + str(ex)[:200]
             out["v0"] = np_fns.randn(c["n"], dtype=A.dtype, key=np_fns.PRNGKey(42))
@@ -762,6 +956,13 @@ def run(ctx):
             which = "LM" if c["which"] == "LM-default" else c["which"]
             mcases.append({"id": f"r{c['id']}", "call": "route", "op": None, "kind": "other", "sa": c["sa"], "rows": c["n"],
                            "cols": c["n"], "k": c["k"], "which": which, "alg": alg_class(c["alg"])})
+            if c["stream"] == "lobpcg":
+                ref = np.linalg.eigvalsh(real["dense"])          # the full spectrum, ascending by value
+                s_ = max(np.linalg.norm(real["dense"], 2), 1e-300)
+                real["ref"] = ref
+                mcases.append({"id": f"l{c['id']}", "call": "lobpcg", "k": c["k"], "which": which, "max_iters": 100,
+                               "magkey": [bits(abs(x)) for x in ref], "magrank": mag_ranks(ref, s_)})
+                continue
             if "computed_vals" in real:
                 s = max(np.linalg.norm(real["dense"], 2), 1e-300)
                 ranks = mag_ranks(real["computed_vals"], s)
@@ -796,6 +997,20 @@ def run(ctx):
             all(math.isfinite(e) for e in errs)
         steps_real = real["power_iterations"] - 1
         info = {"steps_model": ans["steps"], "steps_real": steps_real, "determined": determined}
+        # every value the loop formed, on the common prefix of the two runs (whatever stopped them): state j >= 1 of
+        # the model holds conj(v_{j-1}) @ A v_{j-1}; the real run's iterates are the logged arguments of A @ v
+        rec = real.get("power_rec")
+        if rec is not None and "eigs" in ans:
+            A_ = real["dense"]
+            common_n = min(ans["steps"], len(rec))
+            for j in range(common_n):
+                rho = complex(np.vdot(rec[j], A_ @ rec[j]))
+                mv_ = complex(dec_entry(ans["eigs"][j + 1]))
+                sc = max(abs(rho), abs(mv_), 1e-300)
+                if not abs(mv_ - rho) <= 1e-9 * sc:
+                    mism.append(("power-value-step", f"value {j}: model {mv_}, real run {rho}"))
+                    break
+            dist["power"]["values_compared"] += common_n
         if determined:
             if ans["steps"] != steps_real:
                 mism.append(("power-steps", f"model {ans['steps']} products, real {steps_real} (tol={tol}, max_iter={max_iter})"))
@@ -831,6 +1046,17 @@ def run(ctx):
         if abs(vals[0] - top) > tv * s:
             return [("selection", f"eigmax returned {vals[0]}, the eigenvalue of largest magnitude is {top}")], True
         return [], True
+
+    def claims_power(c, real, tol, max_iter, hermitian):
+        if "power_rec" not in real:
+            return [("power-not-observed", "the iterates of the real run were not logged")]
+        psd = hermitian and c.get("family") == "herm-def"
+        dist["power"]["one_step_claims_checked"] += 1
+        if real["power_iterations"] - 1 >= max_iter:
+            dist["power"]["one_step_claims_at_cap"] += 1
+        if psd:
+            dist["power"]["monotone_checked"] += 1
+        return power_claims(real["dense"], real, tol, max_iter, hermitian, psd)
 
     t0 = time.time()
     for c in cases:
@@ -872,6 +1098,7 @@ def run(ctx):
                     if c["cplx"]:
                         dist["power"]["complex"] += 1
                     fails, claimed = power_oracle(A, real, c["tol"], c["max_iter"], hermitian)
+                    fails = fails + claims_power(c, real, c["tol"], c["max_iter"], hermitian)
                 settle(c, fails, mism, clauses, lean_ok, detail)
                 sg = ("power", c["family"], c["n"], c["tol"], c["max_iter"], real.get("power_iterations"))
                 if sg not in sigs:
@@ -924,7 +1151,8 @@ def run(ctx):
                 if tv is not None and abs(abs(real["scalar"]) - tgt) > tv * s:
                     fails.append(("selection", f"{fn} = {real['scalar']}, extreme magnitude {tgt}"))
                 if real["path"] == "power":
-                    pass
+                    tol, max_iter = power_params(c["alg"])
+                    fails = fails + claims_power(c, real, tol, max_iter, hermitian)
                 elif "select_id" in real:
                     sans = answers.get(real["select_id"], {"error": "no answer"})
                     if "error" not in sans:
@@ -938,6 +1166,38 @@ def run(ctx):
                         mv = zval(sans["code"]["vals"][0]) if sans["code"]["vals"] else None
                         if mv is None or abs(mv - real["scalar"]) > 1e-9 * max(1.0, abs(mv)):
                             mism.append(("structural-value", f"model {mv}, real {real['scalar']}"))
+            elif st == "lobpcg":
+                lans = answers.get(f"l{c['id']}", {"error": "no answer"})
+                s_ = max(np.linalg.norm(A, 2), 1e-300)
+                fails = oracle_eig(A, c["k"], which, real["vals"], real["V"], hermitian, tol_res=LOBPCG_TOL,
+                                   tol_val=LOBPCG_TOL, tol_orth=LOBPCG_TOL)
+                if "error" in lans:
+                    mism.append(("model-error", lans["error"]))
+                else:
+                    ref = real["ref"]
+                    # the contract of the routine: the min(n - 1, max_iters) algebraically largest pairs, ascending
+                    cv = np.asarray(real.get("computed_vals", []))
+                    want_c = ref[n - lans["computed"]:]
+                    if cv.shape != want_c.shape or np.abs(cv - want_c).max() > LOBPCG_TOL * s_:
+                        mism.append(("lobpcg-contract", f"lobpcg computed {cv.tolist()}, the {lans['computed']} algebraically "
+                                                        f"largest eigenvalues are {want_c.tolist()}"))
+                    want = ref[lans["pos"]] if lans["pos"] else np.array([])
+                    rv = np.asarray(real["vals"])
+                    if rv.shape != want.shape or (want.size and np.abs(rv - want).max() > LOBPCG_TOL * s_):
+                        mism.append(("lobpcg-selection", f"real {rv.tolist()}, model: eigenvalues at positions {lans['pos']} of the "
+                                                         f"ascending spectrum = {want.tolist()}"))
+                    clauses |= set(lans["clauses"])
+                    lean_ok = lans["spec_ok"]
+                    dist["lobpcg"]["checked"] += 1
+                    if not lean_ok:
+                        dist["lobpcg"]["dropped_pair_wanted"] += 1
+                    ofail = {f for f, _ in fails}
+                    if (ofail - {"shape", "selection"}) or (bool(ofail) != (not lean_ok) and not mism):
+                        # a failure the clause does not explain, or oracle and exact verdict disagree
+                        if ofail - {"shape", "selection"}:
+                            clauses = set()
+                        else:
+                            mism.append(("spec-disagreement", f"driver verdict {lean_ok}, oracle {sorted(ofail)}"))
             elif st == "structural":
                 sans = answers.get(c["id"], {"error": "no answer"})
                 fails = oracle_eig(A, c["k"], which, real["vals"], real["V"], hermitian)
@@ -993,6 +1253,7 @@ def run(ctx):
                     detail = {"power": info}
                     dist["power"]["determined" if determined else "undetermined"] += 1
                     fails, claimed = power_oracle(A, real, tol, max_iter, hermitian)
+                    fails = fails + claims_power(c, real, tol, max_iter, hermitian)
                 else:
                     fails = oracle_eig(A, c["k"], which, real["vals"], real["V"], hermitian)
                     if "computed_vals" not in real:
@@ -1000,6 +1261,10 @@ def run(ctx):
                     else:
                         pos = locate(real["vals"], real["computed_vals"])
                         sans = answers.get(real["select_id"], {"error": "no answer"})
+                        cfail = contract_check(A, real["path"], real["computed_vals"], real["computed_vecs"], hermitian)
+                        dist["contract_checked"][real["path"]] = dist["contract_checked"].get(real["path"], 0) + 1
+                        if cfail and not fails:
+                            mism += cfail
                         if "error" in sans:
                             mism.append(("model-error", sans["error"]))
                         else:
@@ -1066,10 +1331,14 @@ def run(ctx):
                  "(route), at least 2 products (power).  Streams: value -- Dense operators A = V diag(lam) V^-1 (Hermitian definite / "
                  "indefinite, SelfAdjoint-declared or not; real with complex-conjugate pairs; complex), n = 2..10, every 1 <= k <= n, "
                  "which in {LM, SM, omitted}, alg in {omitted, Auto(), Auto(tol=1e-10, max_iter=500), Eig, Eigh, Lanczos(n), Lanczos(n+3), "
-                 "Arnoldi(n), Arnoldi(n+3), PowerIteration(1e-10, 500)}, eigmax / eigmin; structural -- Identity, Diagonal (positive / mixed-sign / "
+                 "Arnoldi(n), Arnoldi(n+3), Arnoldi(max_iters in {n+1, n+4, 3n}, tol in {0, 1e-18}), Lanczos(n+1, 0), Lanczos(n+4, 1e-18), "
+                 "Lanczos(3n, 0), PowerIteration(1e-10, 500)}, eigmax / eigmin; structural -- Identity, Diagonal (positive / mixed-sign / "
                  "complex / dyadic, unsorted), upper and lower Triangular (real f64 / f32 and complex, distinct diagonals) with exact "
                  "small entries, every k, both which, assorted alg arguments; route -- the rule reached for every alg class incl. "
                  "LOBPCG, SelfAdjoint / PSD declarations, sizes 1000 / 1001 around Auto's 10^6 threshold (spies raise, no numerics); "
+                 "lobpcg -- eig(A, k, which, LOBPCG()) numerically on SelfAdjoint Hermitian definite / indefinite operators, n = 3..8, every "
+                 "k, both which (single precision routine: tolerance 1e-4 ||A||; the model returns the positions in the "
+                 "ascending spectrum, the finding lobpcg-drops-smallest is matched case by case); "
                  "power -- PowerIteration(tol in {1e-3, 1e-6, 1e-10}, max_iter in {1, 2, 5, 30, 100, 400}) on doubles, model on the "
                  "same doubles.  All randomness from random.Random(seed)"),
         "distributions": dist,
@@ -1079,7 +1348,9 @@ def run(ctx):
         "provisional_known": sorted(provisional),
         "finding_replays": finding_replays,
         "not_covered": ["iteration caps below n (Ritz approximations, no eigenpair claim)", "the order numpy's unstable argsort "
-                        "gives members of exactly equal magnitude", "LOBPCG numerically (route only)", "jax / torch backends"],
+                        "gives members of exactly equal magnitude", "LOBPCG for n > 8 (scipy then iterates instead of its dense fallback) and max_iters < n - 1", "jax / torch backends",
+                        "convergence of power iteration (claimed only after a stop by the tolerance test; the one-step claims "
+                        "of C10_power_rayleigh / C10_power_monotone are checked on every run, also at the cap)"],
         "timing_s": {"lean_gate": round(t_gate, 1), "real": round(t_real, 1), "model": round(t_model, 1),
                      "verdicts": round(t_verdict, 1)},
         "trusted_base_extra": [
@@ -1093,9 +1364,14 @@ def run(ctx):
     }
     common.write_evidence(ctx, gate, cov, assumptions=[
         "simple spectrum with distinct magnitudes except complex-conjugate pairs (input domain of the property)",
-        "LAPACK eig / eigh return eigenpairs (eigh: ascending, orthonormal); Lanczos / Arnoldi with at least n iterations return "
-        "the relation A Q = Q T (C14 / C15)",
+        "CONTRACT (assumed, not proved; observed on every computed spectrum by contract_check): LAPACK eig / eigh return "
+        "A P = P diag(lam) with n unit columns, linearly independent (eigh: unitary, ascending) -- structure DenseContract, "
+        "hypothesis of C10_dense_eig / C10_dense_spectrum / C10_dense_eigh and (for the projected matrix) of C10_arnoldi_path",
+        "the Krylov theorems C10_arnoldi_path / C10_lanczos_path cite C15_eigs_partial / C14_lanczos_eigs: exact arithmetic, "
+        "clauses noClip / stopExact (C15 findings) resp. an exhausted Krylov space, tol > 0 for Arnoldi (tol = 0 is exercised "
+        "by the generator, outside the theorem)",
         "exact arithmetic in the theorems; floating point enters through the correspondence (tolerance rule) and the oracle",
-        "power iteration: a unique dominant eigenvalue (real for real A)"])
+        "power iteration: convergence needs a unique dominant eigenvalue (real for real A) -- generator-controlled; the "
+        "one-step claims need nothing"])
     print(json.dumps({"outcomes": outcomes, "evaluations": len(cases), "distinct_nontrivial": nontrivial,
                       "gate": (gate or {}).get("obligations"), "timing": cov["timing_s"]}))
